@@ -6,17 +6,20 @@ _ENV = {"SOURCE_DATE_EPOC": "1700000000"}
 
 CHECK = dict(
     pkg="c13", level="exploration",
-    rule="source image built raw by the harness (real tar layers of 1-4 files incl. directories, whiteouts, symlinks, inner tar files; plain/gzip/zstd; truthful "
-         "diff_ids; history with empty_layer entries aligned; inline data; foreign layers; single image / index of 1-3 platform images / buildkit attestation entry / "
-         "referrers; Docker or OCI types; optional old+new base images satisfying the rebase precondition) x source on a model registry or an OCI layout x target "
-         "(default digest, new tag, replace, other repo by tag or digest, other registry, registry<->layout) x program of 0-5 options with generated arguments from all "
-         "39 exported mod.With* modifiers (+WithRefTgt). Oracle = independent audit of the closure of the returned reference in raw target storage (descriptor digest/size/"
-         "inline data, diff_ids vs. decompressed layers, history alignment, index entries, referrers and fall-back indexes), source frame condition on raw source storage, "
-         "no-op programs return the source digest, same program on an identical fresh input returns the same digest (in-process for every case; in a second process with "
-         "SOURCE_DATE_EPOC pinned for a sample: job crossproc), all re-checked after Close for layouts. "
-         "Non-trivial = successful Apply of >=2 options of which at least one touches layers or media types; distinct by (option multiset, image shape, endpoints).",
+    rule="source image built raw by the harness (real tar layers of 0-4 entries incl. directories, whiteouts, sym/hard links, >100-char names, inner tar files, files up to 140 KB; "
+         "plain/gzip/zstd; truthful diff_ids; history with empty_layer entries aligned, entries with and without created; inline data; foreign layers with and without stored content; "
+         "images without own layers; single image / index of 1-3 platform images / nested index / buildkit attestation entry / referrers / artifact manifest without image config; Docker or OCI "
+         "types, with or without the optional mediaType field, canonical or indented JSON; optional old+new base images (single or index; other repo, source repo or other registry) satisfying the "
+         "rebase precondition) x source on a model registry or an OCI layout, named by tag, digest or tag+digest x target (default digest, new tag, replace, other repo by tag or digest, other "
+         "registry, registry<->layout; empty, stale tag or stale digest reference) x registry feature sets (mount, anonymous mount, HEAD without digest, upload location styles, chunk minimum, "
+         "referrers API) x context plan (live / cancelled before the call / cancelled at the k-th request) x program of 0-5 options with generated arguments from all 39 exported mod.With* "
+         "modifiers (+WithRefTgt, regctl's --time compositions; layer-add from a seekable or a streaming reader, empty tar, either media-type family) x optional second program applied to the "
+         "result with the same client. Oracle = independent audit of the closure of the returned reference in raw target storage (descriptor digest/size/inline data, diff_ids vs. decompressed "
+         "layers, history alignment, index entries, referrers and fall-back indexes) and of every manifest written, source frame condition on raw source storage, no-op programs return the source "
+         "digest, same program on an identical fresh input returns the same digest (in-process for every case; in a second process with SOURCE_DATE_EPOC pinned for a sample: job crossproc), "
+         "all re-checked after Close for layouts. Non-trivial = successful Apply of >=2 options of which at least one touches layers or media types; distinct by (option multiset, image shape, endpoints).",
     jobs=[dict(REPLAY, env=_ENV),
-          rapid("prop", "TestVerifProp", 20000, 160000, sq=16, st=16, env=_ENV),
+          rapid("prop", "TestVerifProp", 18000, 160000, sq=16, st=16, env=_ENV),
           rapid("crossproc", "TestVerifCrossProc", 480, 6400, sq=8, st=16, env=_ENV)],
     technique="property-based testing (rapid): generated images, endpoint pairings and option programs run through mod.Apply against an in-process model registry and raw OCI layouts; "
               "independent closure auditor (encoding/json, crypto, compress/gzip, zstd) as oracle",
@@ -28,7 +31,8 @@ CHECK = dict(
                "opt:<kind> vs optok:<kind>, solo:/solook: for single-option programs). A panic inside Apply on a conformant image with valid arguments is reported as a violation. "
                "Not asserted: existence of foreign (urls) layer content at the target; referrers when the target is another repository (not copied by design); determinism "
                "without the pinned SOURCE_DATE_EPOC (the history entry of an added layer carries the process start time by design); semantic correctness of an option's effect (only consistency of the result).",
-    assumptions=["source content is spec-conformant and complete; every history entry carries a created time (mod dereferences it)",
-                 "layers hold 1-4 entries (an empty tar layer is dropped by any file-level option, by design)",
+    assumptions=["source content is spec-conformant and complete (a body without mediaType has only OCI-typed entries: regclient types such bodies by their first entry, documented duck typing)",
+                 "external-urls-rm is only applied where the external content is stored in the repository (documented precondition: copy with --include-external first)",
+                 "option arguments are syntactically valid (non-empty names, parsable platforms, sha256/sha512); no-op claims exclude images with entry-less tar layers (every file-level option drops them by design)",
                  "in-memory transport (no TLS, no sockets)"],
 )
